@@ -4,7 +4,7 @@ Mode C (bounded-exhaustive inputs), all through the plain public API (nothing he
 
 `stack:<structure>`  tree_transpose / tree_slice / tree_add_element over the synthetic structures
     {leaf, tuple, list, dict, namedtuple, tuple-with-None, nested depth 2-3, chex dataclass} x base leaf
-    shape {(), (1,), (2,), (2,3)} x base dtype {int32, float32, bool, uint8} (leaf j of a tree takes the
+    shape {(), (1,), (2,), (2,3), (2,1), (1,3), (2,2,2)} x base dtype {int32, float32, bool, uint8} (leaf j of a tree takes the
     j-th next shape and dtype, so trees mix shapes and dtypes) x leaf container {jax, numpy} x batch
     size B = 1..4 (quick) / 1..8 (thorough) x **every** index i in 0..B-1 given as a Python int and as
     a 0-d jax int32.  Leaf values depend on (tree index, leaf index, element index), so a slice taken
@@ -54,7 +54,7 @@ from mc.runner import run_tasks
 
 PID = "C19"
 MOD = "mc.checks.c19"
-SHAPES: List[Tuple[int, ...]] = [(), (1,), (2,), (2, 3)]
+SHAPES: List[Tuple[int, ...]] = [(), (1,), (2,), (2, 3), (2, 1), (1, 3), (2, 2, 2)]
 DTYPES = ["int32", "float32", "bool", "uint8"]
 REAL_CFGS = ["snake-3x3-T12", "maze-5x5-T6", "tsp-5", "knapsack-6", "connector-4x2-T5", "binpack-5"]
 _CAP = 5
